@@ -536,7 +536,7 @@ def C14_for (fixed : Bool) : Prop :=
 
 /-- C14 at full strength, about the code AS IT IS. (Stores carrying `DeleteEdge` tombstones are covered for the
 store itself; their projections, `BFSTreeFile.ReadEach` and `SerializedSegment.ToSegment` are the remaining known
-findings, stated precisely in `proj_tombstone_partial/_refuted`, `toSegment_panics`; TSBFS/TSDFS/TSStatelessBFS
+findings, stated precisely in `proj_tombstone_partial/_refuted`; TSBFS/TSDFS/TSStatelessBFS
 have their own theorems below.) -/
 def C14_full : Prop := C14_for true
 
@@ -573,11 +573,61 @@ theorem c14_old_partial :
    fun ops dels dn de d s hd c hc =>
      ⟨reach_eq_gen false ops dels dn de d (Or.inl hd) s c hc, bfsTree_dist_eq_gen false ops dels dn de d (Or.inl hd) s c hc⟩⟩
 
-/-- KNOWN FINDING (C14:SerializedSegment.ToSegment:Edges-index-minus-one-panic), precise statement: `ToSegment`
-panics (`none`) on EVERY serialized segment that has a node and an edge; it only works for edge-less input,
-where it keeps the last node. -/
-theorem toSegment_panics (n : Nat) (ns : List Nat) (e : Nat) (es : List Nat) : toSegment (n :: ns) (e :: es) = none := rfl
-theorem toSegment_partial (n : Nat) : toSegment [n] [] = some [⟨n, 0⟩] := rfl
+/-! ### SerializedSegment.ToSegment (repaired by hooks/C14-fix4.patch: `s.Edges[nodeIndex]`) -/
+
+/-- closed form on well-formed input (`|Edges| + 1 = |Nodes|`, both root-first): node `i+1` carries edge `i`, the
+root's `Edge` stays 0; the chain is returned terminal-first. -/
+theorem toSegment_wf (n : Nat) (ns es : List Nat) (h : es.length = ns.length) :
+    toSegment (n :: ns) es = (List.zipWith Seg.mk ns es).reverse ++ [⟨n, 0⟩] := by
+  rw [toSegment_eq_pairs, toSegPairs_wf ns es n 0 [] h]
+
+/-- `ToSegment` inverts the obvious serialisation, for EVERY segment chain whose root `Edge` is 0 … -/
+theorem toSegment_serialize (seg : List Seg) (hne : seg ≠ []) (hroot : (seg.getLast hne).edge = 0) :
+    toSegment (serialize seg).1 (serialize seg).2 = seg := by
+  obtain ⟨s, t, hst⟩ : ∃ s t, seg.reverse = s :: t := by
+    cases hr : seg.reverse with
+    | nil => exact absurd (List.reverse_eq_nil_iff.mp hr) hne
+    | cons s t => exact ⟨s, t, rfl⟩
+  have hseg : seg = t.reverse ++ [s] := by
+    have := congrArg List.reverse hst
+    simpa using this
+  have hs0 : s.edge = 0 := by
+    have : seg.getLast hne = s := by
+      simp [hseg]
+    rw [this] at hroot; exact hroot
+  unfold serialize
+  simp only
+  rw [hst, toSegment_eq_pairs]
+  have hd : (seg.dropLast.map (·.edge)).reverse = t.map (·.edge) := by
+    rw [hseg]; simp
+  rw [hd, toSegPairs_chain t s [] 0, hseg]
+  congr 2
+  cases s; simp_all
+
+/-- … and the serialisation inverts `ToSegment` on every well-formed input. -/
+theorem serialize_toSegment (n : Nat) (ns es : List Nat) (h : es.length = ns.length) :
+    serialize (toSegment (n :: ns) es) = (n :: ns, es) := by
+  rw [toSegment_wf n ns es h]
+  unfold serialize
+  simp [zipWith_map_node ns es h, zipWith_map_edge ns es h]
+
+/-- ill-formed input, case by case (no totalised default): no nodes → the zero segment, whatever the edges; -/
+theorem toSegment_no_nodes (es : List Nat) : toSegment [] es = [⟨0, 0⟩] := rfl
+
+/-- `|Edges| ≥ |Nodes| ≥ 1`: the first surplus edge `x` opens a dangling terminal with `Node = 0`, later edges are ignored; -/
+theorem toSegment_excess_edges (n : Nat) (ns es : List Nat) (x : Nat) (extra : List Nat) (h : es.length = ns.length) :
+    toSegment (n :: ns) (es ++ x :: extra) = ⟨0, x⟩ :: toSegment (n :: ns) es := by
+  rw [toSegment_eq_pairs, toSegment_eq_pairs, toSegPairs_excess ns es n 0 [] x extra h]
+
+/-- `|Edges| + 1 < |Nodes|`: the nodes beyond the well-formed prefix overwrite the terminal's `Node`; only the last survives. -/
+theorem toSegment_missing_edges (n : Nat) (ns es : List Nat) (m : Nat) (ms : List Nat) (h : es.length = ns.length) :
+    toSegment (n :: ns ++ m :: ms) es = setHeadNode ((m :: ms).getLast (List.cons_ne_nil m ms)) (toSegment (n :: ns) es) := by
+  rw [toSegment_eq_pairs, toSegment_eq_pairs]
+  exact toSegPairs_missing ns es n 0 [] m ms h
+
+/-- C14:SerializedSegment.ToSegment:Edges-index-minus-one-panic (repaired): before the repair `ToSegment` panicked
+(`none`) on EVERY serialized segment that has a node and an edge. -/
+theorem toSegment_panics_old (n : Nat) (ns : List Nat) (e : Nat) (es : List Nat) : toSegmentOld (n :: ns) (e :: es) = none := rfl
 
 /-! ### Non-vacuity: the hypotheses are satisfiable on non-trivial states, and the models are not degenerate.
 Graph: isolated node 9, self loop on 5, parallel edges 7→3 (twice), antiparallel 3→7, chain 7→3→5, sparse id 2^40. -/
@@ -609,7 +659,9 @@ example : marshal [⟨258, 0⟩] = [2, 1, 0, 0, 0, 0, 0, 0] := by decide
 -- the root's Edge is really lost (why the hypothesis is needed)
 example : unmarshal (marshal [⟨1, 5⟩]) = some [⟨1, 0⟩] := by decide
 -- F3: `SerializedSegment.ToSegment` as it is panics (`none`) on every input with an edge
-example : toSegment [1, 2] [7] = none ∧ toSegment [1] [] = some [⟨1, 0⟩] := by decide
+example : toSegmentOld [1, 2] [7] = none ∧ toSegment [1, 2] [7] = [⟨2, 7⟩, ⟨1, 0⟩] ∧ toSegment [1] [] = [⟨1, 0⟩] ∧
+          serialize [⟨5, 14⟩, ⟨4, 13⟩, ⟨3, 0⟩] = ([3, 4, 5], [13, 14]) ∧ toSegment [3, 4, 5] [13, 14] = [⟨5, 14⟩, ⟨4, 13⟩, ⟨3, 0⟩] ∧
+          toSegment [1, 2] [7, 8, 9] = [⟨0, 8⟩, ⟨2, 7⟩, ⟨1, 0⟩] ∧ toSegment [1, 2, 3, 4] [7] = [⟨4, 7⟩, ⟨1, 0⟩] := by decide
 -- `Terminates`: both disjuncts are satisfiable — a depth bound, and a rank for the acyclic chain 7→3→5→2^40 …
 example : Terminates (G.ofOps demoOps) .out (fun _ => true) 2 := Or.inl (by decide)
 example : Terminates (G.ofOps [.edge 1 7 3, .edge 2 3 5]) .out (fun _ => true) 0 :=
